@@ -1,11 +1,987 @@
-//! C15(a) — not built yet.
-use mc_core::Run;
-use serde_json::Value;
+//! C15(a) — every short insertion sequence on the real `SpanningTree`, against a pointwise
+//! reference model of the documented dominance rule.
+//!
+//! Subject (real code, never re-implemented here): `SpanningTree::{Leaf, insert, into_vec}` in
+//! /repo/zcash_client_backend/src/data_api/scanning/spanning_tree.rs.
+//!
+//! Alphabet: every range `s..e` with `0 <= s <= e <= hmax` (empty ranges included: they hit the
+//! `a.end <= b.start` guards of `RangeOrdering::cmp`, the `is_empty` arms of
+//! `truncate_start/_end`, the `None` arm of `split_at` and the `!entry.is_empty()` filter of
+//! `into_vec`), every `ScanPriority` (7), `force_rescans` in {false, true}. With `hmax = 6` every one
+//! of the seven `RangeOrdering` relations occurs against a span that itself has up to three
+//! partition points, on both sides of every `split_point` comparison in `SpanningTree::insert`.
+//!
+//! Search: explicit-state BFS (`mc_core::explore::bfs`) from each first insertion (a `Leaf`), all
+//! operations enabled in every state, state matching on the **full tree shape** (recursive walk of
+//! the public enum: every span, every leaf range and priority, in order) plus the reference state.
+//! The flattening is *not* used as the key: `insert` preserves partition points, so two trees with
+//! equal flattening can have different futures. The same transition function is then run under
+//! stateright's BFS checker and both engines must report the same number of unique states.
+//!
+//! Oracle (written from the documentation, see `RULE` below): an array `prio[h]` over the covered
+//! interval, updated pointwise. After every insertion `tree.clone().into_vec()` must be sorted,
+//! gap-free, non-overlapping, free of empty ranges, adjacent-distinct, and equal to the
+//! run-length encoding of the array. A panic of `insert`/`into_vec` is a violation (the property
+//! says the queue is *always* such a partition).
+//!
+//! Plans (heights, longest sequence): quick (0..=6, 3); thorough adds (0..=5, 4) and, only when the
+//! measured speed says it fits `VERIF_C15A_EXTRA_BUDGET_S` (default 300 s from the start of the
+//! run), the optional extra-depth plan (0..=3, 5). All evidence of this part is in the section
+//! `spanning` of /verif/evidence/C15.json.
 
-pub fn replay(_kind: &str, _case: &Value) -> Result<(), String> {
-    Err("C15a: not built".into())
+use mc_core::explore::{bfs, Limits, Subject};
+use mc_core::{catch, key128, Run};
+use rayon::prelude::*;
+use serde_json::{json, Value};
+use stateright::{Checker, Model, Property};
+use std::cell::RefCell;
+use std::collections::{BTreeMap, HashSet};
+use std::hash::{Hash, Hasher};
+use std::sync::atomic::{AtomicU64, Ordering};
+use std::sync::Arc;
+use std::time::{Duration, Instant};
+use zcash_client_backend::data_api::scanning::{spanning_tree::SpanningTree, ScanPriority, ScanRange};
+use zcash_protocol::consensus::BlockHeight;
+
+// ---------------------------------------------------------------------------------------------
+// Priorities. Indices are this file's own numbering (the order in which the variants are
+// documented in scanning.rs: "Ignored ... lowest priority" first, "Verify ... highest priority"
+// last); the oracle never uses the repository's `Ord` on `ScanPriority`.
+// ---------------------------------------------------------------------------------------------
+const I: u8 = 0; // Ignored
+const S: u8 = 1; // Scanned
+const H: u8 = 2; // Historic
+const O: u8 = 3; // OpenAdjacent
+const F: u8 = 4; // FoundNote
+const C: u8 = 5; // ChainTip
+const V: u8 = 6; // Verify
+const NP: usize = 7;
+const NAMES: [&str; NP] = ["Ignored", "Scanned", "Historic", "OpenAdjacent", "FoundNote", "ChainTip", "Verify"];
+const NONE: u8 = 0xff;
+
+fn real_prio(i: u8) -> ScanPriority {
+    match i {
+        I => ScanPriority::Ignored,
+        S => ScanPriority::Scanned,
+        H => ScanPriority::Historic,
+        O => ScanPriority::OpenAdjacent,
+        F => ScanPriority::FoundNote,
+        C => ScanPriority::ChainTip,
+        V => ScanPriority::Verify,
+        _ => mc_core::machinery_error("C15a: priority index out of range"),
+    }
+}
+fn prio_index(p: ScanPriority) -> u8 {
+    match p {
+        ScanPriority::Ignored => I,
+        ScanPriority::Scanned => S,
+        ScanPriority::Historic => H,
+        ScanPriority::OpenAdjacent => O,
+        ScanPriority::FoundNote => F,
+        ScanPriority::ChainTip => C,
+        ScanPriority::Verify => V,
+    }
+}
+fn prio_by_name(n: &str) -> Option<u8> {
+    NAMES.iter().position(|x| *x == n).map(|i| i as u8)
 }
 
-pub fn explore(_run: &Run) {
-    mc_core::machinery_error("C15a: not built")
+/// The documented dominance rule as an explicit table: `RULE[force][current][inserted]` is the
+/// priority of a height that currently has priority `current` after a range with priority
+/// `inserted` is inserted over it with `force_rescans = force`.
+///
+/// Where each cell comes from:
+/// * diagonal — equal priorities: nothing to decide.
+/// * column `V` — spanning_tree.rs, comment on `dominance`: "If the inserted range's priority is
+///   `Verify`, this replaces any existing priority." (property: "verify ... override").
+/// * column `S` — same comment: "if the new priority is `Scanned`, it overrides any existing
+///   priority" (property: "... and scanned override"); this includes current `Verify`.
+/// * row `S`, force = false — same comment: "Otherwise [inserted is not Verify], if the current
+///   priority is `Scanned`, it remains as `Scanned`" (property: "scanned is sticky"); test comment
+///   "a `ChainTip` insertion should not overwrite a scanned range".
+/// * row `S`, force = true — property: "sticky unless a rescan is forced, otherwise the higher
+///   priority wins": the row is the plain maximum. `Scanned` is documented second-lowest, so
+///   everything from `Historic` up replaces it, and `Ignored` does not (test comment in
+///   `spanning_tree_force_rescans`: "An insert of an ignored range should not override a scanned
+///   range; the existing priority should prevail").
+/// * every other cell — property: "otherwise the higher priority wins": the maximum in the
+///   documented order Ignored < Scanned < Historic < OpenAdjacent < FoundNote < ChainTip < Verify.
+#[rustfmt::skip]
+const RULE: [[[u8; NP]; NP]; 2] = [
+    // force_rescans = false
+    [   // inserted:  I  S  H  O  F  C  V
+        /* cur I */  [I, S, H, O, F, C, V],
+        /* cur S */  [S, S, S, S, S, S, V],
+        /* cur H */  [H, S, H, O, F, C, V],
+        /* cur O */  [O, S, O, O, F, C, V],
+        /* cur F */  [F, S, F, F, F, C, V],
+        /* cur C */  [C, S, C, C, C, C, V],
+        /* cur V */  [V, S, V, V, V, V, V],
+    ],
+    // force_rescans = true (differs from the table above only in row S, columns H O F C)
+    [   // inserted:  I  S  H  O  F  C  V
+        /* cur I */  [I, S, H, O, F, C, V],
+        /* cur S */  [S, S, H, O, F, C, V],
+        /* cur H */  [H, S, H, O, F, C, V],
+        /* cur O */  [O, S, O, O, F, C, V],
+        /* cur F */  [F, S, F, F, F, C, V],
+        /* cur C */  [C, S, C, C, C, C, V],
+        /* cur V */  [V, S, V, V, V, V, V],
+    ],
+];
+
+fn rule_table_json() -> Value {
+    let tab = |f: usize| -> Value {
+        let mut m = serde_json::Map::new();
+        for cur in 0..NP {
+            let mut row = serde_json::Map::new();
+            for ins in 0..NP {
+                row.insert(format!("insert {}", NAMES[ins]), json!(NAMES[RULE[f][cur][ins] as usize]));
+            }
+            m.insert(format!("current {}", NAMES[cur]), Value::Object(row));
+        }
+        Value::Object(m)
+    };
+    json!({"force_rescans=false": tab(0), "force_rescans=true": tab(1)})
+}
+
+// ---------------------------------------------------------------------------------------------
+// Operations
+// ---------------------------------------------------------------------------------------------
+#[derive(Clone, Copy, Debug, PartialEq, Eq, Hash)]
+pub struct Op {
+    s: u8,
+    e: u8,
+    p: u8,
+    force: bool,
+}
+
+impl Op {
+    fn show(&self) -> String {
+        format!("{}..{}:{}:{}", self.s, self.e, NAMES[self.p as usize], if self.force { "force" } else { "noforce" })
+    }
+    fn to_json(self) -> Value {
+        json!({"start": self.s, "end": self.e, "priority": NAMES[self.p as usize], "force_rescans": self.force})
+    }
+    fn from_json(v: &Value) -> Result<Op, String> {
+        let s = v["start"].as_u64().ok_or("op.start")? as u8;
+        let e = v["end"].as_u64().ok_or("op.end")? as u8;
+        let p = prio_by_name(v["priority"].as_str().ok_or("op.priority")?).ok_or("op.priority name")?;
+        let force = v["force_rescans"].as_bool().ok_or("op.force_rescans")?;
+        if s > e || e as usize > MAXH {
+            return Err(format!("op range {s}..{e} outside the model's domain"));
+        }
+        Ok(Op { s, e, p, force })
+    }
+    fn scan_range(&self) -> ScanRange {
+        ScanRange::from_parts(BlockHeight::from(self.s as u32)..BlockHeight::from(self.e as u32), real_prio(self.p))
+    }
+}
+
+fn history_key(h: &[Op]) -> String {
+    format!("spanning:{}", h.iter().map(|o| o.show()).collect::<Vec<_>>().join(">"))
+}
+
+/// Every insertion over boundaries `0..=hmax`; `with_force = false` for first insertions (a first
+/// insertion builds `SpanningTree::Leaf`, there is no flag).
+fn all_ops(hmax: u8, with_force: bool) -> Vec<Op> {
+    let mut v = Vec::new();
+    for s in 0..=hmax {
+        for e in s..=hmax {
+            for p in 0..NP as u8 {
+                v.push(Op { s, e, p, force: false });
+                if with_force {
+                    v.push(Op { s, e, p, force: true });
+                }
+            }
+        }
+    }
+    v
+}
+
+// ---------------------------------------------------------------------------------------------
+// Reference model
+// ---------------------------------------------------------------------------------------------
+const MAXH: usize = 8;
+
+/// `prio[h]` for `lo <= h < hi`, `NONE` elsewhere. `lo..hi` is the covered interval: the hull of
+/// every inserted range (an empty range counts as a position, exactly like a non-empty one).
+#[derive(Clone, Debug, PartialEq, Eq)]
+struct RefModel {
+    lo: u8,
+    hi: u8,
+    prio: [u8; MAXH],
+}
+
+/// What one reference update observed (for outcome diversity only).
+#[derive(Default)]
+struct RefInfo {
+    cells: Vec<(bool, u8, u8)>,
+    relation: &'static str,
+    gap_filled: bool,
+}
+
+impl RefModel {
+    fn first(op: &Op) -> RefModel {
+        let mut prio = [NONE; MAXH];
+        for h in op.s..op.e {
+            prio[h as usize] = op.p;
+        }
+        RefModel { lo: op.s, hi: op.e, prio }
+    }
+
+    fn relation(&self, op: &Op) -> &'static str {
+        let (lo, hi, s, e) = (self.lo, self.hi, op.s, op.e);
+        if s == e {
+            return if lo == hi {
+                "empty-insert/empty-span"
+            } else if s < lo || s > hi {
+                "empty-insert/outside-with-gap"
+            } else if s == lo || s == hi {
+                "empty-insert/at-span-edge"
+            } else {
+                "empty-insert/inside-span"
+            };
+        }
+        if lo == hi {
+            return if e < lo || s > hi {
+                "empty-span/disjoint-with-gap"
+            } else if e == lo || s == hi {
+                "empty-span/adjacent"
+            } else {
+                "empty-span/covered"
+            };
+        }
+        if e < lo {
+            "before/gap"
+        } else if e == lo {
+            "before/adjacent"
+        } else if s > hi {
+            "after/gap"
+        } else if s == hi {
+            "after/adjacent"
+        } else if s == lo && e == hi {
+            "equal"
+        } else if s <= lo && e >= hi {
+            "covers-span"
+        } else if s >= lo && e <= hi {
+            "inside-span"
+        } else if s < lo {
+            "overlaps-start"
+        } else {
+            "overlaps-end"
+        }
+    }
+
+    fn insert(&self, op: &Op) -> (RefModel, RefInfo) {
+        let mut info = RefInfo { relation: self.relation(op), ..Default::default() };
+        let lo = self.lo.min(op.s);
+        let hi = self.hi.max(op.e);
+        let mut prio = [NONE; MAXH];
+        for h in lo..hi {
+            let covered = self.lo <= h && h < self.hi;
+            let inserted = op.s <= h && h < op.e;
+            prio[h as usize] = match (covered, inserted) {
+                (true, true) => {
+                    let cur = self.prio[h as usize];
+                    info.cells.push((op.force, cur, op.p));
+                    RULE[op.force as usize][cur as usize][op.p as usize]
+                }
+                (true, false) => self.prio[h as usize],
+                (false, true) => op.p,
+                // between the previous span and a disjoint insertion: documented gap fill
+                // (`join_nonoverlapping`: "there is a gap that will need to be filled" with
+                // `ScanPriority::Historic`; property: "gaps become historic").
+                (false, false) => {
+                    info.gap_filled = true;
+                    H
+                }
+            };
+        }
+        (RefModel { lo, hi, prio }, info)
+    }
+
+    /// Run-length encoding: maximal runs of equal priority, in height order.
+    fn rle(&self) -> Vec<(u8, u8, u8)> {
+        let mut out: Vec<(u8, u8, u8)> = Vec::new();
+        for h in self.lo..self.hi {
+            let p = self.prio[h as usize];
+            match out.last_mut() {
+                Some(last) if last.2 == p && last.1 == h => last.1 = h + 1,
+                _ => out.push((h, h + 1, p)),
+            }
+        }
+        out
+    }
+}
+
+fn show_flat(v: &[(u8, u8, u8)]) -> String {
+    let parts: Vec<String> = v.iter().map(|(s, e, p)| format!("{}..{}:{}", s, e, NAMES.get(*p as usize).copied().unwrap_or("?"))).collect();
+    format!("[{}]", parts.join(", "))
+}
+
+/// The structural clauses of the property, then equality with the reference.
+fn check_flat(flat: &[ScanRange], model: &RefModel) -> Result<(), String> {
+    let got: Vec<(u8, u8, u8)> = flat
+        .iter()
+        .map(|r| (u32::from(r.block_range().start) as u8, u32::from(r.block_range().end) as u8, prio_index(r.priority())))
+        .collect();
+    for (i, r) in got.iter().enumerate() {
+        if r.0 >= r.1 {
+            return Err(format!("into_vec contains an empty or inverted range at index {i}: {}", show_flat(&got)));
+        }
+        if i > 0 {
+            let p = got[i - 1];
+            if p.1 > r.0 {
+                return Err(format!("into_vec is not sorted / overlaps at index {i}: {}", show_flat(&got)));
+            }
+            if p.1 < r.0 {
+                return Err(format!("into_vec has a gap before index {i}: {}", show_flat(&got)));
+            }
+            if p.2 == r.2 {
+                return Err(format!("into_vec leaves adjacent ranges of equal priority unmerged at index {i}: {}", show_flat(&got)));
+            }
+        }
+    }
+    let want = model.rle();
+    if got != want {
+        return Err(format!("into_vec = {} but the dominance rule applied pointwise gives {}", show_flat(&got), show_flat(&want)));
+    }
+    Ok(())
+}
+
+// ---------------------------------------------------------------------------------------------
+// State and the single transition function (used by both engines and by replay)
+// ---------------------------------------------------------------------------------------------
+#[derive(Clone, Debug)]
+struct St {
+    /// `None` only for states first reached by a history of the maximum length: they are never
+    /// expanded, so only their key is kept (memory).
+    tree: Option<SpanningTree>,
+    model: RefModel,
+    /// canonical bytes of the full tree shape followed by the reference state
+    key: Vec<u8>,
+    /// length of the history that first produced the state (not part of the key)
+    len: u8,
+}
+impl PartialEq for St {
+    fn eq(&self, o: &St) -> bool {
+        self.key == o.key
+    }
+}
+impl Eq for St {}
+impl Hash for St {
+    fn hash<Hs: Hasher>(&self, h: &mut Hs) {
+        self.key.hash(h)
+    }
+}
+
+#[derive(Default, Clone, Copy)]
+struct Shape {
+    leaves: u32,
+    nonempty_leaves: u32,
+    depth: u32,
+    span_inconsistent: bool,
+}
+
+fn h8(h: BlockHeight) -> u8 {
+    u32::from(h) as u8
+}
+
+/// Pre-order walk with fixed-size records: injective on tree shapes. Returns the hull of the
+/// leaves below `t` (used only for the non-verdict span diagnostic).
+fn walk(t: &SpanningTree, out: &mut Vec<u8>, sh: &mut Shape, depth: u32) -> (u8, u8) {
+    sh.depth = sh.depth.max(depth);
+    match t {
+        SpanningTree::Leaf(r) => {
+            sh.leaves += 1;
+            if !r.block_range().is_empty() {
+                sh.nonempty_leaves += 1;
+            }
+            let (s, e) = (h8(r.block_range().start), h8(r.block_range().end));
+            out.extend_from_slice(&[b'L', s, e, prio_index(r.priority())]);
+            (s, e)
+        }
+        SpanningTree::Parent { span, left, right } => {
+            out.extend_from_slice(&[b'P', h8(span.start), h8(span.end)]);
+            let l = walk(left, out, sh, depth + 1);
+            let r = walk(right, out, sh, depth + 1);
+            // Not part of the property (which speaks about the flattening only): recorded as a
+            // diagnostic, never as a violation.
+            if (h8(span.start), h8(span.end)) != (l.0, r.1) || l.1 > r.0 {
+                sh.span_inconsistent = true;
+            }
+            (l.0, r.1)
+        }
+    }
+}
+
+struct Info {
+    reference: RefInfo,
+    flat_changed: bool,
+    flat_len_before: usize,
+    flat_len_after: usize,
+    shape: Shape,
+}
+
+/// Insert `op` into `prev` (or build the first leaf) on the real code, update the reference, and
+/// evaluate the oracle. `Err` = the property is violated on this transition.
+fn apply(prev: Option<&St>, op: &Op, keep_tree: bool) -> Result<(St, Info), String> {
+    let range = op.scan_range();
+    let (tree, model, reference, len) = match prev {
+        None => (SpanningTree::Leaf(range), RefModel::first(op), RefInfo { relation: "first", ..Default::default() }, 1),
+        Some(st) => {
+            let t = match &st.tree {
+                Some(t) => t.clone(),
+                None => mc_core::machinery_error("C15a: attempt to expand a state kept without its tree"),
+            };
+            let force = op.force;
+            let tree = catch(move || t.insert(range, force)).map_err(|p| format!("SpanningTree::insert panicked: {p}"))?;
+            let (m, i) = st.model.insert(op);
+            (tree, m, i, st.len + 1)
+        }
+    };
+    let t2 = tree.clone();
+    let flat = catch(move || t2.into_vec()).map_err(|p| format!("SpanningTree::into_vec panicked: {p}"))?;
+    check_flat(&flat, &model)?;
+    let mut key = Vec::with_capacity(64);
+    let mut shape = Shape::default();
+    walk(&tree, &mut key, &mut shape, 0);
+    key.push(b'|');
+    key.push(model.lo);
+    key.push(model.hi);
+    key.extend_from_slice(&model.prio);
+    let (flat_changed, flat_len_before) = match prev {
+        None => (true, 0),
+        Some(st) => (st.model != model, st.model.rle().len()),
+    };
+    let info = Info { reference, flat_changed, flat_len_before, flat_len_after: flat.len(), shape };
+    Ok((St { tree: keep_tree.then_some(tree), model, key, len }, info))
+}
+
+/// Decide one whole history from scratch (sweep counterexamples and `--replay` both end here).
+fn check_history(ops: &[Op]) -> Result<St, String> {
+    let mut st: Option<St> = None;
+    for (i, op) in ops.iter().enumerate() {
+        match apply(st.as_ref(), op, true) {
+            Ok((n, _)) => st = Some(n),
+            Err(m) => return Err(format!("after insertion #{} ({}): {}", i + 1, op.show(), m)),
+        }
+    }
+    st.ok_or_else(|| "empty history".to_string())
+}
+
+fn case_json(hmax: u8, ops: &[Op]) -> Value {
+    json!({"hmax": hmax, "ops": ops.iter().map(|o| o.to_json()).collect::<Vec<_>>()})
+}
+
+pub fn replay(kind: &str, case: &Value) -> Result<(), String> {
+    if kind != "spanning" {
+        return Err(format!("C15a: unknown replay kind {kind}"));
+    }
+    let ops: Vec<Op> = case["ops"].as_array().ok_or("case.ops missing")?.iter().map(Op::from_json).collect::<Result<_, _>>()?;
+    check_history(&ops).map(|_| ())
+}
+
+// ---------------------------------------------------------------------------------------------
+// Engine 1: mc_core BFS, one search per first insertion
+// ---------------------------------------------------------------------------------------------
+#[derive(Default)]
+struct Acc {
+    transitions: u64,
+    flat_changed: u64,
+    flat_unchanged: u64,
+    coalesced_in_into_vec: u64,
+    flat_shrunk: u64,
+    gap_filled: u64,
+    span_inconsistent: u64,
+    cells: [[[u64; NP]; NP]; 2],
+    relations: BTreeMap<&'static str, u64>,
+    leaves_hist: BTreeMap<u32, u64>,
+    depth_hist: BTreeMap<u32, u64>,
+    /// key hashes of every state discovered / of those below the depth bound (the expanded ones)
+    keys: Vec<u128>,
+    expanded: Vec<u128>,
+    /// violating transitions by class (all of them, not only the reported counterexamples)
+    violations: BTreeMap<String, u64>,
+}
+
+/// Coarse class of a violation message (drops the concrete ranges).
+fn class_of(msg: &str) -> String {
+    if let Some(i) = msg.find("panicked: ") {
+        let head = if msg.contains("into_vec panicked") { "panic in into_vec" } else { "panic in insert" };
+        return format!("{head}: {}", &msg[i + "panicked: ".len()..]);
+    }
+    if msg.contains("into_vec = ") {
+        return "flattening differs from the pointwise dominance rule".into();
+    }
+    for c in ["empty or inverted range", "not sorted / overlaps", "has a gap", "equal priority unmerged"] {
+        if msg.contains(c) {
+            return format!("structure: {c}");
+        }
+    }
+    "other".into()
+}
+
+impl Acc {
+    fn record(&mut self, i: &Info) {
+        self.transitions += 1;
+        if i.flat_changed {
+            self.flat_changed += 1;
+        } else {
+            self.flat_unchanged += 1;
+        }
+        if (i.shape.nonempty_leaves as usize) > i.flat_len_after {
+            self.coalesced_in_into_vec += 1;
+        }
+        if i.flat_len_after < i.flat_len_before {
+            self.flat_shrunk += 1;
+        }
+        if i.reference.gap_filled {
+            self.gap_filled += 1;
+        }
+        if i.shape.span_inconsistent {
+            self.span_inconsistent += 1;
+        }
+        for (f, c, n) in &i.reference.cells {
+            self.cells[*f as usize][*c as usize][*n as usize] += 1;
+        }
+        *self.relations.entry(i.reference.relation).or_insert(0) += 1;
+        *self.leaves_hist.entry(i.shape.leaves).or_insert(0) += 1;
+        *self.depth_hist.entry(i.shape.depth).or_insert(0) += 1;
+    }
+    fn merge(&mut self, o: Acc) {
+        self.transitions += o.transitions;
+        self.flat_changed += o.flat_changed;
+        self.flat_unchanged += o.flat_unchanged;
+        self.coalesced_in_into_vec += o.coalesced_in_into_vec;
+        self.flat_shrunk += o.flat_shrunk;
+        self.gap_filled += o.gap_filled;
+        self.span_inconsistent += o.span_inconsistent;
+        for f in 0..2 {
+            for c in 0..NP {
+                for n in 0..NP {
+                    self.cells[f][c][n] += o.cells[f][c][n];
+                }
+            }
+        }
+        for (k, v) in o.relations {
+            *self.relations.entry(k).or_insert(0) += v;
+        }
+        for (k, v) in o.leaves_hist {
+            *self.leaves_hist.entry(k).or_insert(0) += v;
+        }
+        for (k, v) in o.depth_hist {
+            *self.depth_hist.entry(k).or_insert(0) += v;
+        }
+        for (k, v) in o.violations {
+            *self.violations.entry(k).or_insert(0) += v;
+        }
+    }
+}
+
+struct Sub<'a> {
+    ops: &'a [Op],
+    max_len: u8,
+    acc: RefCell<Acc>,
+}
+
+impl Subject for Sub<'_> {
+    type State = St;
+    type Op = Op;
+    fn ops(&self, _s: &St, _depth: usize) -> Vec<Op> {
+        self.ops.to_vec()
+    }
+    fn step(&self, s: &St, op: &Op) -> Result<Option<St>, String> {
+        match apply(Some(s), op, s.len + 1 < self.max_len) {
+            Ok((n, info)) => {
+                self.acc.borrow_mut().record(&info);
+                Ok(Some(n))
+            }
+            Err(m) => {
+                *self.acc.borrow_mut().violations.entry(class_of(&m)).or_insert(0) += 1;
+                Err(m)
+            }
+        }
+    }
+    fn key(&self, s: &St) -> Vec<u8> {
+        s.key.clone()
+    }
+    /// Called once per newly discovered state. The oracle is evaluated on the transition (in
+    /// `step`); here the state is only registered for the cross-root census.
+    fn check(&self, s: &St) -> Result<(), String> {
+        let k = key128(&s.key);
+        let mut acc = self.acc.borrow_mut();
+        acc.keys.push(k);
+        if s.len < self.max_len {
+            acc.expanded.push(k);
+        }
+        Ok(())
+    }
+}
+
+// ---------------------------------------------------------------------------------------------
+// Engine 2: stateright, same transition function
+// ---------------------------------------------------------------------------------------------
+struct SrModel {
+    root: St,
+    max_len: u8,
+    ops: Arc<Vec<Op>>,
+    rejected: Arc<AtomicU64>,
+}
+
+impl Model for SrModel {
+    type State = St;
+    type Action = Op;
+    fn init_states(&self) -> Vec<St> {
+        vec![self.root.clone()]
+    }
+    fn actions(&self, _s: &St, actions: &mut Vec<Op>) {
+        actions.extend(self.ops.iter().copied());
+    }
+    fn next_state(&self, s: &St, a: Op) -> Option<St> {
+        match apply(Some(s), &a, s.len + 1 < self.max_len) {
+            Ok((n, _)) => Some(n),
+            Err(_) => {
+                self.rejected.fetch_add(1, Ordering::Relaxed);
+                None
+            }
+        }
+    }
+    fn properties(&self) -> Vec<Property<Self>> {
+        // stateright stops expanding once every property has a discovery; a `sometimes` property
+        // that never holds keeps the search running to the depth bound.
+        vec![Property::sometimes("sentinel (never true)", |_, _| false)]
+    }
+}
+
+/// Plans (in list order) that every run of the tier completes or reports as capped; later plans are
+/// optional extra depth.
+const MANDATORY_PLANS: usize = 2;
+
+/// Counterexamples kept per first insertion / reported per violation class.
+const MAX_CEX_PER_ROOT: usize = 4096;
+const PER_CLASS: usize = 6;
+
+struct RootResult {
+    root: Op,
+    states: u64,
+    transitions: u64,
+    per_depth: Vec<u64>,
+    capped: Option<String>,
+    cex: Vec<(Vec<Op>, String)>,
+    acc: Acc,
+    sr_states: u64,
+    sr_generated: u64,
+    sr_rejected: u64,
+    sr_max_depth: usize,
+    root_failed: bool,
+}
+
+fn explore_root(root: &Op, ops: &Arc<Vec<Op>>, max_len: u8, deadline: Instant) -> RootResult {
+    let mut res = RootResult {
+        root: *root,
+        states: 0,
+        transitions: 0,
+        per_depth: vec![],
+        capped: None,
+        cex: vec![],
+        acc: Acc::default(),
+        sr_states: 0,
+        sr_generated: 0,
+        sr_rejected: 0,
+        sr_max_depth: 0,
+        root_failed: false,
+    };
+    let (init, info) = match apply(None, root, true) {
+        Ok(x) => x,
+        Err(m) => {
+            // the first insertion alone already violates the property: nothing to search from
+            res.acc.violations.insert(class_of(&m), 1);
+            res.cex.push((vec![*root], m));
+            res.root_failed = true;
+            return res;
+        }
+    };
+    let sub = Sub { ops, max_len, acc: RefCell::new(Acc::default()) };
+    sub.acc.borrow_mut().record(&info);
+    let remaining = deadline.saturating_duration_since(Instant::now());
+    if remaining.is_zero() {
+        res.capped = Some("not started: wall budget of the tier already used up".into());
+        return res;
+    }
+    let lim = Limits { max_depth: (max_len - 1) as usize, max_states: u64::MAX, max_wall_s: remaining.as_secs_f64() };
+    let (stats, cex) = bfs(&sub, vec![init.clone()], &lim, MAX_CEX_PER_ROOT);
+    res.states = stats.states;
+    res.transitions = stats.transitions;
+    res.per_depth = stats.per_depth.clone();
+    res.capped = stats.capped.clone();
+    for c in cex {
+        let mut h = vec![*root];
+        h.extend(c.history);
+        res.cex.push((h, c.msg));
+    }
+    res.acc = sub.acc.into_inner();
+    if res.capped.is_none() {
+        let rejected = Arc::new(AtomicU64::new(0));
+        let checker = SrModel { root: init, max_len, ops: ops.clone(), rejected: rejected.clone() }
+            .checker()
+            .threads(1)
+            .target_max_depth(max_len as usize)
+            .timeout(deadline.saturating_duration_since(Instant::now()) + Duration::from_secs(1))
+            .spawn_bfs()
+            .join();
+        if Instant::now() >= deadline {
+            res.capped = Some("stateright pass cut by the wall budget of the tier".into());
+        }
+        res.sr_states = checker.unique_state_count() as u64;
+        res.sr_generated = checker.state_count() as u64;
+        res.sr_max_depth = checker.max_depth();
+        res.sr_rejected = rejected.load(Ordering::Relaxed);
+    }
+    res
+}
+
+fn describe(ops: &[Op]) -> Value {
+    match check_history(ops) {
+        Ok(st) => json!({
+            "insertions": ops.iter().map(|o| o.show()).collect::<Vec<_>>(),
+            "into_vec": show_flat(&st.model.rle()),
+            "tree": st.tree.as_ref().map(|t| format!("{:?}", t).replace("BlockHeight", "").replace("ScanRange ", "")),
+            "verdict": "agrees with the reference",
+        }),
+        Err(m) => json!({"insertions": ops.iter().map(|o| o.show()).collect::<Vec<_>>(), "verdict": m}),
+    }
+}
+
+pub fn explore(run: &Run) {
+    let quick = run.tier == mc_core::Tier::Quick;
+    // (hmax, longest insertion sequence)
+    let plans: Vec<(u8, u8)> = if quick { vec![(6, 3)] } else { vec![(6, 3), (5, 4), (3, 5)] };
+    let mut sec = serde_json::Map::new();
+    sec.insert(
+        "rule".into(),
+        json!("C15a: all insertion sequences (range s..e with 0<=s<=e<=hmax incl. empty, 7 priorities, force flag) up to the stated length from \
+         every first insertion, explored breadth-first with state matching on the full SpanningTree shape (+ reference array); a case is a \
+         (reached tree shape, next insertion) pair, executed on the real SpanningTree and compared with the pointwise dominance table. \
+         Plans: quick = heights 0..=6 with <=3 insertions; thorough = that plus heights 0..=5 with <=4 insertions, plus (optional, only when the \
+         wall budget allows; see plans) heights 0..=3 with <=5 insertions"),
+    );
+    run.assume(
+        "C15a: the covered interval is the hull of all inserted ranges, an empty range counting as a position (so an empty range away from \
+         the span extends it and the gap becomes Historic, as join_nonoverlapping documents for any non-adjacent pair)",
+    );
+    run.assume("C15a: priority order for 'the higher priority wins' is the documented declaration order Ignored < Scanned < Historic < OpenAdjacent < FoundNote < ChainTip < Verify");
+    sec.insert("dominance_table".into(), rule_table_json());
+
+    // One wall budget for all plans of the tier, measured from the start of the run. A search that
+    // the budget cuts is reported with `cap_hit` (never silently).
+    let budget_s: u64 = if quick { 50 } else { 540 };
+    // The optional extra-depth plan gets a smaller budget (part (b) of C15 runs after this in the same
+    // process); VERIF_C15A_EXTRA_BUDGET_S=540 lets it run on this class of machine (it then needs
+    // about 190 s idle / 340 s loaded).
+    let extra_budget_s: u64 = std::env::var("VERIF_C15A_EXTRA_BUDGET_S").ok().and_then(|v| v.parse().ok()).unwrap_or(300);
+    let run_start = Instant::now() - Duration::from_secs_f64(run.elapsed());
+    let mut total = Acc::default();
+    let mut plan_reports = Vec::new();
+    let mut any_failure = false;
+    let mut last_plan_wall = 0.0f64;
+    let mut skipped: Vec<Value> = Vec::new();
+    for (pi, (hmax, max_len)) in plans.into_iter().enumerate() {
+        // The extra-depth plan costs 1.5x - 2.3x the wall time of the plan before it (measured, idle
+        // and loaded machine); it is run only when 2.5x fits the remaining budget, and is otherwise
+        // reported as skipped.
+        let budget_s = if pi >= MANDATORY_PLANS { extra_budget_s } else { budget_s };
+        let deadline = run_start + Duration::from_secs(budget_s);
+        if pi >= MANDATORY_PLANS && run.elapsed() + 2.5 * last_plan_wall > budget_s as f64 {
+            skipped.push(json!({"heights": format!("0..={hmax}"), "max_insertions": max_len,
+                "skipped": format!("optional extra-depth plan not started: {:.0}s used, previous plan took {:.0}s, budget {}s (VERIF_C15A_EXTRA_BUDGET_S)", run.elapsed(), last_plan_wall, budget_s)}));
+            continue;
+        }
+        let t0 = Instant::now();
+        let roots = all_ops(hmax, false);
+        let ops = Arc::new(all_ops(hmax, true));
+        let results: Vec<RootResult> = roots.par_iter().map(|r| explore_root(r, &ops, max_len, deadline)).collect();
+
+        let mut sum_states = 0u64;
+        let mut sum_sr = 0u64;
+        let mut sum_sr_generated = 0u64;
+        let mut sr_max_depth = 0usize;
+        let mut transitions = 0u64;
+        let mut per_len: Vec<u64> = vec![];
+        let mut all_keys: Vec<u128> = Vec::new();
+        let mut expanded_keys: HashSet<u128> = HashSet::new();
+        let mut engines_agree = true;
+        let mut disagreements = Vec::new();
+        let mut found: BTreeMap<String, Vec<Vec<Op>>> = BTreeMap::new();
+        let mut capped_roots = 0u64;
+        let mut first_cap: Option<String> = None;
+        for mut r in results {
+            if let Some(c) = &r.capped {
+                capped_roots += 1;
+                first_cap.get_or_insert_with(|| format!("{}: {c}", r.root.show()));
+            }
+            for (h, m) in &r.cex {
+                any_failure = true;
+                found.entry(class_of(m)).or_default().push(h.clone());
+            }
+            sum_states += r.states;
+            sum_sr += r.sr_states;
+            sum_sr_generated += r.sr_generated;
+            sr_max_depth = sr_max_depth.max(r.sr_max_depth);
+            transitions += r.transitions;
+            for (d, n) in r.per_depth.iter().enumerate() {
+                if per_len.len() <= d {
+                    per_len.resize(d + 1, 0);
+                }
+                per_len[d] += n;
+            }
+            if r.cex.is_empty() && r.capped.is_none() && (r.states != r.sr_states || r.sr_rejected != 0) {
+                engines_agree = false;
+                if disagreements.len() < 5 {
+                    disagreements.push(format!("{}: mc_core {} vs stateright {} (rejected {})", r.root.show(), r.states, r.sr_states, r.sr_rejected));
+                }
+            }
+            // with violations present, both engines must still have seen the same number of
+            // violating transitions (neither expands past one)
+            let violating: u64 = r.acc.violations.values().sum();
+            if !r.cex.is_empty() && !r.root_failed && r.capped.is_none() && (r.sr_rejected != violating || r.states != r.sr_states) {
+                engines_agree = false;
+                if disagreements.len() < 5 {
+                    disagreements.push(format!(
+                        "{}: mc_core {} states / {} violating transitions vs stateright {} / {}",
+                        r.root.show(), r.states, violating, r.sr_states, r.sr_rejected
+                    ));
+                }
+            }
+            all_keys.append(&mut r.acc.keys);
+            expanded_keys.extend(r.acc.expanded.drain(..));
+            total.merge(r.acc);
+        }
+        run.require(engines_agree, &format!("C15a hmax={hmax}: mc_core and stateright disagree: {:?}", disagreements));
+        if capped_roots > 0 {
+            run.cap_hit(&format!(
+                "C15a plan heights 0..={hmax}, <= {max_len} insertions: wall budget {budget_s}s of the tier cut {capped_roots} of {} first insertions (first: {}); \
+                 plans listed before this one in c15a_plans were completed",
+                roots.len(),
+                first_cap.unwrap_or_default()
+            ));
+        }
+        // Report the shortest (then lexicographically first) counterexamples of every violation
+        // class, so that one frequent class cannot crowd the others out of the failure list.
+        for (_class, mut hs) in std::mem::take(&mut found) {
+            hs.sort_by_cached_key(|h| (h.len(), history_key(h)));
+            for h in hs.iter().take(PER_CLASS) {
+                // the message recorded is the one the replay path produces
+                match check_history(h) {
+                    Err(m) => run.fail("spanning", history_key(h), m, case_json(hmax, h)),
+                    Ok(_) => mc_core::machinery_error(&format!("C15a: counterexample {} does not reproduce from scratch", history_key(h))),
+                }
+            }
+        }
+        all_keys.par_sort_unstable();
+        all_keys.dedup();
+        let distinct_transitions = expanded_keys.len() as u64 * ops.len() as u64;
+        // every transition (and every first insertion) is an execution on the real SpanningTree
+        let executed = transitions + roots.len() as u64;
+        run.add_graph(all_keys.len() as u64, executed, executed);
+        let distinct = distinct_transitions.min(transitions) + roots.len() as u64;
+        run.eval_distinct(distinct);
+        run.add_evaluations(executed - distinct);
+        plan_reports.push(json!({
+            "heights": format!("0..={hmax}"),
+            "max_insertions": max_len,
+            "first_insertions": roots.len(),
+            "operations": ops.len(),
+            "raw_sequences_of_max_length": (roots.len() as u128) * (ops.len() as u128).pow((max_len - 1) as u32),
+            "unique_states_global": all_keys.len(),
+            "unique_states_summed_over_roots_mc_core": sum_states,
+            "unique_states_summed_over_roots_stateright": sum_sr,
+            "stateright_generated_states_summed_over_roots": sum_sr_generated,
+            "stateright_max_depth": sr_max_depth,
+            "states_by_history_length_summed_over_roots": per_len,
+            "expanded_states_global": expanded_keys.len(),
+            "transitions_executed": transitions,
+            "first_insertions_cut_by_wall_budget": capped_roots,
+            "wall_s": t0.elapsed().as_secs_f64(),
+        }));
+        last_plan_wall = t0.elapsed().as_secs_f64();
+    }
+    plan_reports.extend(skipped);
+    sec.insert("plans".into(), json!(plan_reports));
+    sec.insert("violating_transitions_by_class".into(), json!(total.violations));
+    sec.insert(
+        "diagnostics_not_verdicts".into(),
+        json!({"transitions_whose_tree_has_a_parent_span_differing_from_the_hull_of_its_children_or_misordered_children": total.span_inconsistent}),
+    );
+
+    // outcome diversity
+    run.outcome_n("spanning:flattening-changed", total.flat_changed);
+    run.outcome_n("spanning:flattening-unchanged", total.flat_unchanged);
+    run.outcome_n("spanning:into_vec-coalesced-leaves", total.coalesced_in_into_vec);
+    run.outcome_n("spanning:flattening-got-shorter", total.flat_shrunk);
+    run.outcome_n("spanning:gap-filled-historic", total.gap_filled);
+    for (k, v) in &total.relations {
+        run.outcome_n(&format!("spanning:relation:{k}"), *v);
+    }
+    let mut cells_hit = 0;
+    let mut cells = serde_json::Map::new();
+    let mut missing = Vec::new();
+    for f in 0..2 {
+        for c in 0..NP {
+            for n in 0..NP {
+                let name = format!("force={} current={} inserted={} => {}", f == 1, NAMES[c], NAMES[n], NAMES[RULE[f][c][n] as usize]);
+                if total.cells[f][c][n] > 0 {
+                    cells_hit += 1;
+                } else {
+                    missing.push(name.clone());
+                }
+                cells.insert(name, json!(total.cells[f][c][n]));
+            }
+        }
+    }
+    run.outcome_n("spanning:dominance-cells-hit", cells_hit);
+    sec.insert("dominance_cells_pointwise_applications".into(), Value::Object(cells));
+    sec.insert(
+        "tree_shapes".into(),
+        json!({
+            "leaves_histogram": total.leaves_hist.iter().map(|(k, v)| (k.to_string(), *v)).collect::<BTreeMap<_, _>>(),
+            "depth_histogram": total.depth_hist.iter().map(|(k, v)| (k.to_string(), *v)).collect::<BTreeMap<_, _>>(),
+        }),
+    );
+
+    // a few written-out histories (the repository's own documented examples plus boundary shapes)
+    let op = |s, e, p, force| Op { s, e, p, force };
+    let mut written = Vec::new();
+    for (i, h) in [
+        vec![op(0, 3, V, false), op(2, 6, S, false), op(5, 6, V, false)],
+        vec![op(0, 2, C, false), op(2, 4, S, false), op(0, 6, C, false)],
+        vec![op(0, 2, O, false), op(5, 6, O, false)],
+        vec![op(1, 4, S, false), op(2, 6, O, true), op(0, 3, I, true)],
+        vec![op(0, 3, H, false), op(3, 3, F, false), op(3, 6, H, false)],
+        vec![op(3, 3, F, false), op(5, 5, C, false), op(0, 1, S, false)],
+        // panicked in `from_split` before the fix "SpanningTree::insert no longer panics when an
+        // empty range sits at an end of the span"
+        vec![op(0, 3, S, false), op(3, 3, H, false), op(0, 3, H, true)],
+    ]
+    .iter()
+    .enumerate()
+    {
+        let d = describe(h);
+        // part (b) shares the run's sample list: keep only a few there, all of them in the section
+        if [0, 3, 4, 6].contains(&i) {
+            run.sample(d.clone());
+        }
+        written.push(d);
+    }
+    sec.insert("written_out_histories".into(), json!(written));
+    run.section("spanning", Value::Object(sec));
+
+    if !any_failure {
+        run.require(missing.is_empty(), &format!("C15a: dominance cells never exercised: {:?}", missing));
+        run.require(total.flat_changed > 0 && total.flat_unchanged > 0, "C15a: flattening changed/unchanged not both observed");
+        run.require(total.coalesced_in_into_vec > 0 && total.flat_shrunk > 0, "C15a: no merge of adjacent equal priorities observed");
+        run.require(total.gap_filled > 0, "C15a: no Historic gap fill observed");
+        run.require(total.relations.len() >= 17, &format!("C15a: only {} range relations observed", total.relations.len()));
+    }
 }
